@@ -289,6 +289,23 @@ def cond_text(f, idx):
     return k
 
 
+def iteration_starts(g, f, loop):
+    """points at which an iteration of `loop` begins: the declaration of the loop variable for a range-for, the targets of the true
+    edge of the condition for while / for"""
+    if loop['k'] == 'forrange':
+        return [p for p in g.points if p.n is not None and p.f is f and p.n['k'] == 'declstmt' and
+                any(d['id'] == loop.get('var') for d in p.n['decls'])]
+    starts = []
+    if loop.get('cnd') is None:
+        return starts
+    cset = set(f.subtree(loop['cnd'])) | {loop['cnd']}
+    for p in g.points:
+        for (q, lab) in p.succ:
+            if lab and isinstance(lab[0], int) and lab[1] is f and lab[2] is True and q not in starts and lab[0] in cset:
+                starts.append(q)
+    return starts
+
+
 def loop_visits_every_element(g, f, loop, visit_pts, allowed_exit=None):
     """Range-for `loop` of f (graph g): every iteration passes one of `visit_pts`, and the loop is only left when the range is
     exhausted (or over an edge `allowed_exit(a, b, lab)` accepts). Returns None when it holds, else a reason.
